@@ -299,11 +299,19 @@ impl Matrix {
         } else if nrows < 0 {
             assert!(nrows == -1 && ncols > 0, "invalid number of rows");
             // automatically determine number of rows
+            assert!(
+                size > 0 && size % ncols as usize == 0,
+                "invalid shape: number of columns does not divide the number of elements"
+            );
             self.ncols = ncols as usize;
             self.nrows = size / ncols as usize;
         } else if ncols < 0 {
             assert!(ncols == -1 && nrows > 0, "invalid number of columns");
             // automatically determine number of columns
+            assert!(
+                size > 0 && size % nrows as usize == 0,
+                "invalid shape: number of rows does not divide the number of elements"
+            );
             self.nrows = nrows as usize;
             self.ncols = size / nrows as usize;
         } else {
